@@ -150,6 +150,10 @@ func (b *balModel) adminGrants(h uint64, txs []*pb.BxhTransaction, metas []*txMe
 
 func (s *scn) twinCheck(h uint64, ev *pb.CommitEvent, txs []*pb.BxhTransaction, metas []*txMeta, ref *blockResult) {
 	t := s.twin
+	if s.prop == "C10" && !s.inSetup {
+		s.twinC10(h, ev, txs, metas, ref)
+		return
+	}
 	// pick one failed transaction of the block (rotating) and neutralise it on the twin
 	pick := -1
 	var failed []int
